@@ -24,7 +24,7 @@ var (
 	count  = map[string]int{}
 	decPos int
 	// Failed is set when an Assert fails natively.
-	Failed []string
+	Failed  []string
 	Covered = map[string]bool{}
 )
 
@@ -125,6 +125,14 @@ func Assert(b bool, label string) {
 
 // Cover marks a label that must be reached by at least one feasible path.
 func Cover(label string) { mu.Lock(); Covered[label] = true; mu.Unlock() }
+
+// CoverIf covers label when cond can hold on this path (engine: one
+// satisfiability query, no fork; the path is not constrained by cond).
+func CoverIf(cond bool, label string) {
+	if cond {
+		Cover(label)
+	}
+}
 
 // Known marks the rest of this path as inside the region of known finding id
 // when in is true and the id is listed as open in known_findings.json.
